@@ -366,9 +366,29 @@ theorem ctor_of_model (m : AppManifest) (h : m.WF) :
     simp only [Analysis.ctorRaises, hroot, Bool.false_eq_true, if_false, h2, hs, optFirst, apiLoadRaises,
       hne _ s (Or.inl rfl) hs, hv]
 
-/-- `get_main_activities`: exactly the names of the enabled activities and aliases that have a filter with action MAIN and
+/-- `get_main_activities` on EVERY manifest with non-empty names (no assumption on how MAIN and LAUNCHER are spread over
+    intent filters): exactly the names under which an enabled activity / alias declares the action MAIN and an enabled activity /
+    alias declares the category LAUNCHER (`AppManifest.IsMainName`, androguard's documented notion: the intersection of the two
+    name sets), each once.  This is the interpretation of "main activity" taken by this property. -/
+theorem main_activities_of_model (m : AppManifest) (h : m.WF0) :
+    (∀ n, n ∈ (analyse (some m.toXml)).mainActivities ↔ m.IsMainName n) ∧
+    (analyse (some m.toXml)).mainActivities.Nodup :=
+  ⟨fun n => mem_mainActivities_byName m h n, mainActivities_nodup _⟩
+
+/-- androguard's by-name notion against Android's launcher rule (MAIN and LAUNCHER in ONE filter of an enabled component,
+    `Activity.isMain`): every launcher activity is reported on every manifest; and the two notions coincide on the manifests that
+    are `LauncherCoherent` (the last clause of `AppManifest.WF`). -/
+theorem main_name_vs_launcher_rule (m : AppManifest) :
+    (∀ a ∈ m.activities, a.isMain = true → m.IsMainName a.name) ∧
+    (m.LauncherCoherent → ∀ n, m.IsMainName n ↔ ∃ a ∈ m.activities, a.isMain = true ∧ a.name = n) :=
+  ⟨fun a ha hm => perFilter_isMainName m a ha hm, fun hco n => isMainName_iff_perFilter m hco n⟩
+
+/-- `WF` is `WF0` plus launcher coherence -/
+theorem wf_split (m : AppManifest) : m.WF ↔ m.WF0 ∧ m.LauncherCoherent := wf_iff m
+
+/-- hence, on coherent manifests: exactly the names of the enabled activities and aliases that have a filter with action MAIN and
     category LAUNCHER, each once -/
-theorem main_activities_of_model (m : AppManifest) (h : m.WF) :
+theorem main_activities_per_filter (m : AppManifest) (h : m.WF) :
     (∀ n, n ∈ (analyse (some m.toXml)).mainActivities ↔ ∃ a ∈ m.activities, a.isMain = true ∧ a.name = n) ∧
     (analyse (some m.toXml)).mainActivities.Nodup := by
   refine ⟨fun n => ?_, mainActivities_nodup _⟩
@@ -430,7 +450,7 @@ theorem manifest_queries_on_file (opq : Nat → Nat → Str) (E : Enc) (ln : Nat
       (m.mainNames ≠ [] → ∃ r, a.mainActivity = some r ∧
         r ∈ candidates (m.mainNames.map (complete m.package)) m.answers.activities ∧
         ∀ y ∈ candidates (m.mainNames.map (complete m.package)) m.answers.activities, strLt y r = false) := by
-  refine ⟨analyse (some m.toXml), ?_, queries_on_model m hm, (main_activities_of_model m hm).1, (main_activities_of_model m hm).2,
+  refine ⟨analyse (some m.toXml), ?_, queries_on_model m hm, (main_activities_per_filter m hm).1, (main_activities_per_filter m hm).2,
     (main_activity_of_model m hm).1, (main_activity_of_model m hm).2⟩
   simp [analyseFile, manifest_file_tree opq E ln m hf hdoc]
 
@@ -510,10 +530,14 @@ example : exManifest2.WF ∧ exManifest2.fits = true := by decide +kernel
 example : wfDoc (fun _ _ => []) (canonEnc false false (docOf 3 exManifest2)) (docOf 3 exManifest2) = true := by decide +kernel
 example : exManifest2.answers.effectiveTarget = some (.ok 21) ∧ exManifest2.answers.maxSdk = .val (lit "@7F050001") ∧
     exManifest2.answers.services = [[0x63, 0xFC, 0x2E, 0x78, 0x2E, 0x53]] := by decide +kernel
-/-- the last clause of `AppManifest.WF` is needed: with MAIN in one filter and LAUNCHER in another, androguard reports a main
-    activity although no filter is a launcher filter -/
-example : (analyse (some (AppManifest.toXml { exManifest with activities :=
-      [⟨false, lit "Split", none, none, [⟨[lit actionMain], []⟩, ⟨[lit "android.intent.action.VIEW"], [lit categoryLauncher]⟩]⟩] }))).mainActivities
-    = [lit "Split"] := by decide +kernel
+/-- a manifest that is not launcher-coherent (MAIN in one filter, LAUNCHER in another): it satisfies `WF0`, so
+    `main_activities_of_model` applies; androguard's by-name notion reports "Split" although no single filter is a launcher
+    filter (Android's rule would report none): the two notions differ exactly here -/
+def exSplit : AppManifest := { exManifest with activities :=
+  [⟨false, lit "Split", none, none, [⟨[lit actionMain], []⟩, ⟨[lit "android.intent.action.VIEW"], [lit categoryLauncher]⟩]⟩] }
+example : exSplit.WF0 ∧ ¬ exSplit.LauncherCoherent ∧ ¬ exSplit.WF := by decide +kernel
+example : exSplit.IsMainName (lit "Split") ∧ exSplit.mainNames = [] := by
+  refine ⟨⟨⟨_, List.mem_singleton.2 rfl, by decide, by decide, rfl⟩, ⟨_, List.mem_singleton.2 rfl, by decide, by decide, rfl⟩⟩, by decide⟩
+example : (analyse (some exSplit.toXml)).mainActivities = [lit "Split"] := by decide +kernel
 
 end AgVerif.C31
